@@ -122,3 +122,63 @@ Proof.
   rewrite andb_false_r in H. cbn [orb] in H. apply andb_true_iff in H. destruct H as [H _].
   eexists. exact H.
 Qed.
+
+(* ---------- C08: reference candidates ---------- *)
+Section WalkProofs.
+  Variable conv : ty -> ty -> bool.
+  Variable self_active : bool.
+  Variable ref_scope : string.
+  Variable ref_type : ty.
+  Variable prefix : string.
+  Variable outer_body origin_rng : range.
+
+  Notation ltm := (local_target_matches conv self_active ref_scope ref_type prefix origin_rng).
+  Notation atm := (abs_target_matches conv ref_scope ref_type prefix outer_body).
+
+  (* every target the walk offers is offered through its local or through its absolute address *)
+  Lemma match_walk_sound fuel : forall ts t,
+    In t (match_walk conv self_active ref_scope ref_type prefix outer_body origin_rng fuel ts) ->
+    exists cm, ltm cm t = true \/ atm cm t = true.
+  Proof.
+    induction fuel as [|f IH]; intros ts t H; cbn [match_walk] in H; [contradiction|].
+    apply in_flat_map in H. destruct H as (x & _ & H).
+    destruct (ltm _ x || atm _ x) eqn:E.
+    - destruct H as [<-|[]]. eexists. apply orb_true_iff in E. exact E.
+    - eapply IH; eauto.
+  Qed.
+
+  (* offered through the local address: it starts with the typed text, self.* only where enabled,
+     and the cursor lies in the range the name is visible from *)
+  Lemma local_match_implies cm t :
+    ltm cm t = true ->
+    String.prefix prefix (addr_string (t_local t)) = true /\
+    (first_is_self (t_local t) = true -> self_active = true) /\
+    (forall fr, t_from t = Some fr -> range_overlaps fr origin_rng = true).
+  Proof.
+    unfold local_target_matches. destruct (t_local t) as [|s0 rest] eqn:EL; [discriminate|].
+    destruct (String.prefix prefix (addr_string (s0 :: rest))) eqn:EP; cbn [negb]; [|discriminate].
+    destruct (negb self_active && first_is_self (s0 :: rest)) eqn:ES; [discriminate|].
+    destruct (match t_rng t with Some r => _ | None => false end); [discriminate|].
+    destruct (t_from t) as [fr|] eqn:EF.
+    - destruct (range_overlaps fr origin_rng) eqn:EO; cbn [negb]; [|discriminate].
+      intros _. split; [reflexivity|]. split.
+      + intros Hs. rewrite Hs, andb_true_r in ES. now destruct self_active.
+      + intros fr' Hfr. inversion Hfr; subst. exact EO.
+    - intros _. split; [reflexivity|]. split.
+      + intros Hs. rewrite Hs, andb_true_r in ES. now destruct self_active.
+      + intros fr' Hfr. discriminate.
+  Qed.
+
+  (* offered through the absolute address: it starts with the typed text and is not a field of
+     the block the cursor is in *)
+  Lemma abs_match_implies cm t :
+    atm cm t = true ->
+    String.prefix prefix (addr_string (t_addr t)) = true /\ target_in_range t outer_body = false /\
+    (matches_constraint conv t ref_scope ref_type = true \/ cm = true).
+  Proof.
+    unfold abs_target_matches. destruct (t_addr t) as [|s0 rest]; [discriminate|].
+    destruct (String.prefix prefix (addr_string (s0 :: rest))); cbn [negb]; [|discriminate].
+    destruct (target_in_range t outer_body); [discriminate|].
+    intros H. apply orb_true_iff in H. auto.
+  Qed.
+End WalkProofs.
